@@ -27,7 +27,7 @@ import json,sys
 out,pid,s1,s2,d1,d2=sys.argv[1:7]
 notes=open(out+'/SEED_NOTES.md').read() if __import__('os').path.exists(out+'/SEED_NOTES.md') else ''
 json.dump({'property':pid,'needs_to_manifest':'see SEED_NOTES.md','confirmed':{'suite_lib_with_change':s1,'suite_doc_with_change':s2,'demo_with_change':d1,'demo_without_change':d2},
- 'ran':['cargo test --offline --lib','cargo test --offline --doc','cargo test --offline --test seed_demo (with change)','git stash; cargo test --offline --test seed_demo (without change)'],
+ 'ran':['cargo test --offline --lib','cargo test --offline --doc','cargo test --offline --test seed_demo (with change)','git apply -R <diff>; cargo test --offline --test seed_demo (without change)'],
  'origin':'independent sub-agent given only the property text and a scratch worktree'},open(out+'/meta.json','w'),indent=1)
 PY
 echo "stored in $OUT"
